@@ -66,9 +66,15 @@ Definition all_bytes (l : bytes) : bool := forallb is_byte l.
 
 Definition split_at (n : nat) (l : bytes) : option (bytes * bytes) :=
   if short n l then None else Some (firstn n l, skipn n l).
-(* the count comes from the wire: compare before converting *)
+(* the count comes from the wire: compare before converting.  [shortN n l] =
+   (length l < n) in time min(n, length l) (TlWireP.shortN_spec) *)
+Fixpoint shortN {A} (n : N) (l : list A) : bool :=
+  match n with
+  | N0 => false
+  | _ => match l with [] => true | _ :: t => shortN (N.pred n) t end
+  end.
 Definition split_atN (n : N) (l : bytes) : option (bytes * bytes) :=
-  if N.of_nat (length l) <? n then None else split_at (N.to_nat n) l.
+  if shortN n l then None else split_at (N.to_nat n) l.
 
 Definition pad_of (n : N) : nat := N.to_nat ((4 - n mod 4) mod 4).
 Definition bytes_header (n : N) : bytes := if n <? 254 then [n] else 254 :: le_bytes 3 n.
@@ -125,11 +131,13 @@ Fixpoint dec_pos (D : bytes -> option (value * bytes)) (p : positive)
   | xI p' => opt (v, r) <- D bs;
              opt (acc', r') <- dec_pos D p' (v :: acc) r; dec_pos D p' acc' r'
   end.
+(* linear-time reversal (List.rev is quadratic); frev l = rev l (TlWireP.frev_eq) *)
+Definition frev {A} (l : list A) : list A := rev_append l [].
 Definition dec_count (D : bytes -> option (value * bytes)) (n : N) (bs : bytes)
   : option (list value * bytes) :=
   match n with
   | N0 => Some ([], bs)
-  | Npos p => opt (acc, r) <- dec_pos D p [] bs; Some (rev acc, r)
+  | Npos p => opt (acc, r) <- dec_pos D p [] bs; Some (frev acc, r)
   end.
 
 (* is a field present, given the [#] fields seen so far *)
